@@ -17,7 +17,7 @@ EXPLANATION = ("model `build_parts`: the factors of all parts are pooled and eva
                "ALL parts; the model's parts must equal the implementation's parts (names, exact values, drop set, recorded scoped terms); shape, row "
                "alignment, equality with separate builds under the joint drop set and regeneration from each part's own spec are checked directly")
 TRUSTED = ["the mapping between nested Structured results and the flat part list (flatten order) is done by the harness"]
-ASSUMPTIONS = ["theorem `part_equals_separate_build` (cache coherence) is validated by correspondence and the direct oracle; its mechanisation is listed as open in DESIGN.md"]
+ASSUMPTIONS = ["theorem `C07_part_equals_separate_build` holds under `consistent`: the kind of a factor is a function of its expression (one pool entry per expression)"]
 
 
 def gen_structure(rng, depth=2):
